@@ -539,7 +539,8 @@ func (o *objectGoReflect) equal(other objectImpl) bool {
 			if isContainer(k1) {
 				return o.fieldsValue == other.fieldsValue
 			}
-			return o.fieldsValue.Interface() == other.fieldsValue.Interface()
+			// a map with methods or an unusual key type is wrapped in an objectGoReflect: == would panic
+			return o.fieldsValue.Comparable() && o.fieldsValue.Interface() == other.fieldsValue.Interface()
 		}
 	}
 	return false
